@@ -287,3 +287,122 @@ def c05(res):
     res.assumptions += ["real OS interleavings are sampled (perturbed), the enumeration of all interleavings is at design level",
                         "parking_lot's Mutex/Condvar behave as a lock and a condition variable"]
     shutil.rmtree(wd, ignore_errors=True)
+
+
+def c12(res):
+    rng = random.Random(seed() * 1000 + 12)
+    q = res.tier == "quick"
+    wd = workdir("C12m-%s" % res.tier)
+    # (0) design level: bounded delay after expiry, for 1-2 workers; the as-found variant must violate it
+    mc_jobmarket(res, ["JobMarket_1w_timeout", "JobMarket_2w_timeout"])
+    asis_must_fail(res)
+    # (a) HasDiscoveries::matches on every (property list, discoveries, variant)
+    mp = os.path.join(wd, "matches.ndjson")
+    mo = os.path.join(wd, "matches.json")
+    run_vh(["matches", "--out", mp], timeout=600)
+    r = run_tlc("JudgeMatches.tla", "cfg/empty.cfg", env=dict(RECS=mp, OUT=mo), timeout=1200, name="jmatches")
+    if not r["ok"]:
+        raise ToolError("matches judge failed: " + r["out"][-2000:])
+    o = json.load(open(mo))
+    recs = read_ndjson(mp)
+    if not o["monotone"]:
+        raise ToolError("HasDiscoveries.tla: Matches is not monotone (spec error)")
+    for i in o["bad"]:
+        rec = recs[i - 1]
+        res.violation("matches/%s" % rec["finish"]["variant"], dict(check="matches", record=rec))
+    res.traces += len(recs)
+    res.evaluations += len(recs)
+    res.nontrivial += len(recs)
+    res.notes.append("HasDiscoveries::matches: %d (property list, discovery set, variant) cases, all judged; Matches is monotone" % len(recs))
+    # (b) finish conditions x targets x depth limits x strategies x threads on small graphs
+    graphs = gg.f1_corpus(rng, 250 if q else None)
+    graphs += [gg.random_graph(rng, "F2-%d" % i, 3, 10) for i in range(500 if q else 6000)]
+    graphs += [gg.random_forest(rng, "F3-%d" % i, 4, 12) for i in range(100 if q else 1000)]
+
+    def cfgs(i, g):
+        out = []
+        for s in ("bfs", "dfs", "ondemand"):
+            for t in ((1, 2) if q else (1, 2, 4)):
+                kw = {}
+                r = rng.random()
+                if r < 0.4:
+                    kw["finish"] = gg.finish_menu(rng, g)
+                if 0.3 < r < 0.6:
+                    kw["target_states"] = rng.randint(1, 14)
+                if r > 0.55:
+                    kw["target_depth"] = rng.randint(1, 6)
+                out.append(gg.base_cfg(s, t, **kw))
+        out.append(gg.base_cfg("bfs", 1, target_depth=rng.randint(1, 6)))
+        if any(g["inb"][s - 1] for s in g["init"]):
+            out.append(gg.base_cfg("sim", 1, target_states=rng.choice([8, 30]), seed=rng.randint(0, 2 ** 32), log_chooser=True,
+                                   replay_check=True, target_depth=rng.choice([0, 0, 3, 5])))
+        return out
+    fam_graph.run_family(res, "C12", ["stop_reason", "target", "depth_max", "depth_min", "seed_replay", "first_trace"], graphs, cfgs)
+    # (c) timeouts on effectively unbounded models: every thread count must stop shortly after expiry
+    unb = dict(id="unbounded", family="unbounded", n=4000000000, init=[1], succ=[], inb=[], params=[], poison=0, rep=[],
+               props=big_props(rng))
+    tcfgs = []
+    for s in ("bfs", "dfs"):
+        for t in ((1, 2, 4) if q else (1, 2, 3, 4, 8)):
+            ms = rng.choice([300, 600])
+            tcfgs.append(dict(gg.base_cfg(s, t, timeout_ms=ms, no_visitor=True, watchdog_ms=ms + 1000 + 5500), expect_timeout=True))
+    tcfgs.append(dict(gg.base_cfg("sim", 2, timeout_ms=400, no_visitor=True, watchdog_ms=400 + 1000 + 5500, seed=7), expect_timeout=True))
+    ip = os.path.join(wd, "t-items.ndjson")
+    rp = os.path.join(wd, "t-runs.ndjson")
+    write_ndjson(ip, [dict(g=unb, gi=1, cfgs=[c]) for c in tcfgs])
+    run_vh(["graphs", "--in", ip, "--out", rp, "--par", str(len(tcfgs))], timeout=600)
+    truns = read_ndjson(rp)
+    # (d) an unexpired timeout must not change results or progress (finite graph, far-future timeout, 4 threads)
+    fin = f4_graphs(rng, True)[:2]
+    for g in fin:
+        g["props"] = big_props(rng)
+    hitems = []
+    for i, g in enumerate(fin):
+        cs = []
+        for s in ("bfs", "dfs"):
+            for t in (2, 4):
+                cs.append(gg.base_cfg(s, t, no_visitor=True, watchdog_ms=60000))
+                cs.append(gg.base_cfg(s, t, no_visitor=True, watchdog_ms=60000, timeout_ms=600000, market_log=True))
+        hitems.append(dict(g=g, gi=i + 1, cfgs=cs))
+    ip2 = os.path.join(wd, "h-items.ndjson")
+    rp2 = os.path.join(wd, "h-runs.ndjson")
+    write_ndjson(ip2, hitems)
+    run_vh(["graphs", "--in", ip2, "--out", rp2, "--par", "1"], timeout=1200)
+    hruns = read_ndjson(rp2)
+    for k in range(0, len(hruns), 2):
+        ref, wt = hruns[k], hruns[k + 1]
+        wt["done"]["ref_wall_ms"] = max(ref["done"]["wall_ms"], 1)
+        wt["done"]["ref_unique"] = ref["done"]["unique"]
+    allt = truns + [hruns[k + 1] for k in range(0, len(hruns), 2)]
+    for i, r_ in enumerate(allt):
+        r_["rid"] = i + 1
+    tp = os.path.join(wd, "t-all.ndjson")
+    to = os.path.join(wd, "t-all.json")
+    write_ndjson(tp, allt)
+    r = run_tlc("JudgeTimeouts.tla", "cfg/empty.cfg", env=dict(RUNS=tp, OUT=to), timeout=600, name="jtimeouts")
+    if not r["ok"]:
+        raise ToolError("timeout judge failed: " + r["out"][-2000:])
+    for j in json.load(open(to))["judged"]:
+        run = allt[j["rid"] - 1]
+        for f in j["failed"]:
+            res.violation("%s/%s/%s" % (f, run["cfg"]["strategy"], "t1" if run["cfg"]["threads"] == 1 else "tn"),
+                          dict(check=f, cfg=run["cfg"], done=run["done"]))
+    # the market log of the unexpired-timeout runs: the timeout thread must not sleep while holding the market lock
+    logs = [(r_["rid"], r_["market"]) for r_ in allt if r_.get("market")]
+    bad, cov = validate_events(res, wd, logs, "tmo")
+    byrid = {r_["rid"]: r_ for r_ in allt}
+    for b in bad:
+        for why in b["why"]:
+            res.violation("market/%s" % why, dict(check="market_trace", event=b, cfg=byrid[b["run"]]["cfg"]))
+    res.traces += len(allt)
+    res.evaluations += len(allt)
+    res.nontrivial += len(allt)
+    res.samples.append(dict(cfg=truns[0]["cfg"], done=truns[0]["done"]))
+    res.rule = ("(a) matches: all property lists <=3 x discovery subsets x variants; (b) bfs/dfs/on-demand/simulation on generated "
+                "graphs x finish conditions x target_state_count x target_max_depth x threads: early stop only with a reason, "
+                "total >= target unless exhausted, no visit deeper than the limit, 1-thread BFS visits everything nearer; seed "
+                "replay of the first simulation trace (logging chooser) and its validity; (c) timeout on an unbounded model for "
+                "threads 1-8: join within expiry + 1 s poll + slack; (d) far-future timeout on finite graphs: same counts, "
+                "comparable wall time, market log never shows the timeout thread sleeping with the lock held")
+    res.assumptions += ["wall-clock bounds carry 4 s (delay) / max(5x, +2 s) (harmlessness) of slack for a loaded machine"]
+    shutil.rmtree(wd, ignore_errors=True)
